@@ -377,11 +377,42 @@ def ite(c, a, b):
 # --------------------------------------------------------------------------------------------------
 # arrays
 
-def select(arr, idx):
-    """Select with eager beta-reduction when the array term is a lambda"""
+def select(arr, idx, _depth=0):
+    """Select with eager beta-reduction: through store / ite spines down to lambdas, so that the solver is not
+    asked to combine the array theory with lambda terms"""
     if z3.is_quantifier(arr) and arr.is_lambda() and arr.num_vars() == len(idx):
         return z3.substitute_vars(arr.body(), *reversed(list(idx)))
+    if _depth < 12 and z3.is_app(arr):
+        k = arr.decl().kind()
+        if k == z3.Z3_OP_STORE and _spine_has_lambda(arr):
+            n = arr.num_args()
+            sidx = [arr.arg(i) for i in range(1, n - 1)]
+            same = z3.simplify(z3.And(*[a == b for a, b in zip(idx, sidx)])) if sidx else z3.BoolVal(True)
+            if z3.is_true(same):
+                return arr.arg(n - 1)
+            rest = select(arr.arg(0), idx, _depth + 1)
+            if z3.is_false(same):
+                return rest
+            return z3.If(same, arr.arg(n - 1), rest)
+        if k == z3.Z3_OP_ITE and _spine_has_lambda(arr):
+            return z3.If(arr.arg(0), select(arr.arg(1), idx, _depth + 1), select(arr.arg(2), idx, _depth + 1))
     return z3.Select(arr, *idx)
+
+
+def _spine_has_lambda(arr):
+    for _ in range(64):
+        if z3.is_quantifier(arr):
+            return arr.is_lambda()
+        if not z3.is_app(arr):
+            return False
+        k = arr.decl().kind()
+        if k == z3.Z3_OP_STORE:
+            arr = arr.arg(0)
+        elif k == z3.Z3_OP_ITE:
+            return _spine_has_lambda(arr.arg(1)) or _spine_has_lambda(arr.arg(2))
+        else:
+            return False
+    return False
 
 
 _CANON = {}
